@@ -147,7 +147,7 @@ class Taus(object):
         )
         E_tau[beta_high] = np.finfo(np.float32).eps
 
-        return E_tau * (10**log_e_nu)
+        return E_tau * (10.0**log_e_nu)
 
     @decorators.nss_result_plot(
         taus_density_beta, taus_histogram, taus_pexit, taus_overview
